@@ -53,6 +53,9 @@ GROUP = {
              ('expr.is_Function', '(Sym.isFunction expr)'),
              ('isinstance(expr, model.Quantity)', '(Sym.isQuantity expr)'),
              ('isinstance(expr, model.Variable)', '(Sym.isVariable expr)'),
+             # count of the first differentiation variable of a Derivative (1 for every derivative the model's
+             # expression type can hold: higher orders are serialised as `other "Derivative"`)
+             ('expr.args[1][1]', '(Sym.derivCount expr)'),
              ('expr.args', '(Sym.args expr)'),
              ('str(expr.func)', '(Sym.func expr)'), ('expr.func', '(Sym.func expr)'),
              ('sympy.Abs', '"Abs"'), ('sympy.floor', '"floor"'), ('sympy.ceiling', '"ceiling"'),
